@@ -184,6 +184,8 @@ class DerivedLabelsDatabase:
             print_warning(f"problem in the following query:\n\n{query}\n")
             raise exception
         for (name_prefix, name_suffix, span_string, path) in row_iterator:
+            if span_string is None:  # aggregate over an empty selection
+                continue
             label_name = f"{name_prefix}:{name_suffix}" if name_suffix != "" else name_prefix
             span = span_string.split("-")
             labels_spans[label_name][Span(int(span[0]), int(span[-1]), path)] = None
